@@ -435,6 +435,30 @@ class Evaluator:
                         self.env.pop(self.lkey(lhs_), None)      # the object no longer holds its old value
                     except Unknown:
                         pass
+            dyn_target = None
+            dyn_ = getattr(self, "dyn_type", None)
+            if dyn_ and k == "CXXMemberCallExpr" and n.get("callee") and n["callee"].get("dispatch") == "virtual" and n.get("obj") is not None:
+                # a virtual call on an object whose dynamic class the model states (dyn_type: address -> class): the
+                # override of that class is the callee (for hooks and for inlining alike)
+                os_ = f.strip(f.node(n["obj"]))
+                if os_ is not None and os_["k"] in ("DeclRefExpr", "MemberExpr", "CXXThisExpr"):
+                    try:
+                        rv_ = self.env.get("this") if os_["k"] == "CXXThisExpr" else self.ev(f.node(n["obj"]))
+                    except Unknown:
+                        rv_ = None
+                    if isinstance(rv_, int) and rv_ in dyn_:
+                        mname, c_ = n["callee"]["qn"].split("::")[-1], dyn_[rv_]
+                        st_ = self.prog.functions.get(n["callee"].get("mn"))
+                        sig_ = [q["ct"] for q in st_.params] if st_ is not None else None      # (the overload the call was resolved to)
+                        for _ in range(8):
+                            cand = [g_ for g_ in self.prog.methods_of(c_) if g_.name == mname and len(g_.params) == len(f.args(n)) and (sig_ is None or [q["ct"] for q in g_.params] == sig_)]
+                            if cand or not self.prog.records.get(c_, {}).get("bases"):
+                                break
+                            c_ = self.prog.records[c_]["bases"][0]
+                            c_ = c_.get("name") if isinstance(c_, dict) else c_
+                        if cand:
+                            dyn_target = cand[0]
+                            nm = dyn_target.qn
             indirect_target = None
             if k == "CallExpr" and not n.get("callee") and nm not in self.calls:
                 # a call through a function-pointer value: when the pointer folds to a function designator, the call is that function's
@@ -519,8 +543,10 @@ class Evaluator:
                     auto = True
             if indirect_target and len(indirect_target) == 1 and (nm in inl or (indirect_target[0].d.get("static") and indirect_target[0].kind == "function")):
                 auto = True
-            if (nm in inl or auto) and ((n.get("callee") and n["callee"]["mn"] in self.prog.functions) or indirect_target):
-                g = self.prog.functions[n["callee"]["mn"]] if n.get("callee") else indirect_target[0]
+            if dyn_target is not None:
+                auto = auto or (dyn_target.cls == f.cls)
+            if (nm in inl or auto) and (dyn_target is not None or (n.get("callee") and n["callee"]["mn"] in self.prog.functions) or indirect_target):
+                g = dyn_target if dyn_target is not None else (self.prog.functions[n["callee"]["mn"]] if n.get("callee") else indirect_target[0])
                 if getattr(self, "_depth", 0) > 30:
                     raise Unknown("inlining depth exceeded in %s (unbounded recursion)" % nm)
                 args = []
@@ -581,6 +607,7 @@ class Evaluator:
                 sub.pass_object = getattr(self, "pass_object", False)
                 sub.heap_mode = getattr(self, "heap_mode", False)
                 sub.objects = getattr(self, "objects", False)
+                sub.dyn_type = getattr(self, "dyn_type", None)
                 sub.on_subscript = getattr(self, "on_subscript", None)
                 sub.trace.append(("enter " + str(nm), None, n))
                 sub.run_blocks(g.entry, max_steps=5000)
@@ -880,10 +907,18 @@ class Evaluator:
         b = start
         steps = 0
         visited = []
+        root_ = self
+        while getattr(root_, "_parent", None) is not None:
+            root_ = root_._parent
         while True:
             steps += 1
             if steps > max_steps:
                 raise Unknown("step limit")
+            # one budget for the whole fold (all inlined callees): a model on which the code does not terminate, or a
+            # recursion that fans out, ends as Unknown instead of hanging the check
+            root_._budget = getattr(root_, "_budget", 0) + 1
+            if root_._budget > 400000:
+                raise Unknown("step budget of the fold exhausted (unbounded recursion or loop)")
             if b in stop_blocks or b == f.exit:
                 return b, visited
             visited.append(b)
